@@ -53,6 +53,10 @@ CLAIMED = {
     text="Theorems (Coq, all compositions of any number of bits, all integers): the compile step gives member i shift = sum of later widths and mask = (2^w-1)<<shift and rejects totals that are not a multiple of 8; unpack gives each member exactly (I / 2^shift) mod 2^w; after pack every slice holds its own value mod 2^w whatever the other values (any size, any sign) and the stale shared integer are; round trip. Tied to bisturi/field.py Bits by the regenerated kernel G5_bits (mask/shift/get/put expressions, boundary test) + bridge lemmas and by all 128 compositions of 8 bits x 256 patterns plus sampled 16..72-bit runs on model and implementation, both code paths.",
     note="Trusted: Coq kernel + vm_compute; harness/pygen.py; python's unbounded two's-complement ints = Coq Z with Z.land/lor/lnot/shiftl/shiftr; class/case generator.",
     technique="Coq proof (Z.testbit reasoning) of slice theorems + regenerated-kernel bridge lemmas + vm_compute correspondence", design="8/C07"),
+ 'C09': dict(
+    text="Theorems (Coq): C09_compile_correct -- for EVERY value domain, exception type and operator semantics, every expression tree (unary, binary, n-ary with list or mapping, any nesting), environment and stack, running the compiled postfix program leaves exactly the eager left-to-right meaning on the stack or raises its first exception; C09_deferred_means_python -- instantiated with python's semantics on integers/booleans/bytes/lists, the machine's result is Value.eval (what the parsing model uses); operands stay in source order (reflected methods). Tie: template-matched bisturi/deferred.py (G13_deferred: compile_expr, exec_compiled_expr, _defer_method incl. swap of reflected operands); per case the postfix program bisturi compiled is compared with the model's program, its result with the model's (value or exception kind) and with eval of the same python text, and a run on symbolic operands makes operand order observable for every operator; exhaustive for depth 1 (all operators x all ordered leaf pairs) and for all operator pairs nested on either side, random to depth 5 with chooses/if_true_then_else.",
+    note="Trusted: Coq kernel + vm_compute; pygen template; python operator semantics on ints/bools/bytes/lists as written in Model/Value.v (checked by correspondence); true division and power are compared against eval only (they leave the modelled domain).",
+    technique="Coq proof of compiler correctness (generic) + instance theorem + template-matched kernel + vm_compute correspondence incl. symbolic runs", design="8/C09"),
  'C10': dict(
     text="Theorems (Coq, all cursors/targets/alignments): Move.pack and Move.unpack are the same function of (cursor, innermost position); a packet parsed at start offset b is laid out identically relative to its start when serialized for innermost/current references (and for start-of-data only when b=0 or the alignment divides b: the refutation witness is finding D10, owned by C01); alignment advances by the least d in [0,a) reaching a multiple; negative positions are errors on both sides. Tied by the regenerated kernels G3_move/G4_seq (every position expression of both directions) + bridge lemmas, exhaustive direct calls of Move.unpack/Move.pack over alignment x reference x target x cursor x innermost position x target form, and repeated(aligned=a) classes at all start offsets.",
     note="Trusted: Coq kernel + vm_compute; harness/pygen.py (python % = Z.modulo for non-zero modulus; zero modulus raises); enumeration harness. Whole-packet placement/fill is covered by C01/C11.",
